@@ -49,8 +49,9 @@ class Sched(object):
 
 
 class World(object):
-    def __init__(self, d, kind, faults, texts, order):
+    def __init__(self, d, kind, faults, texts, order, persistent=False):
         self.d, self.kind, self.faults, self.texts = d, kind, faults, texts
+        self.persistent = persistent     # an "error" fault hits EVERY call of its site (a step that keeps failing), not only the first
         self.dest = real_os.path.join(d, MOD + ('.py' if kind == 'py' else ''))
         self.events = []
         self.tempof = {}
@@ -102,7 +103,8 @@ class World(object):
     def fault(self, w, call):
         f = self.faults.get(w)
         if f and f['s'] == call and (w, call) not in self.fired:
-            self.fired.add((w, call))
+            if not (self.persistent and f['k'] == 'error'):
+                self.fired.add((w, call))
             return f['k']
         return None
 
@@ -238,7 +240,7 @@ class PyCompileProxy(object):
 _lock = threading.Lock()
 
 
-def run(scratch, kind, writers, faults, order, dest0, dir0, dry, texts):
+def run(scratch, kind, writers, faults, order, dest0, dir0, dry, texts, persistent=False):
     """Execute putData() for each writer in its own thread along `order`; returns the trace dict."""
     import pysmi.writer.localfile as LF
     import pysmi.writer.pyfile as PF
@@ -246,7 +248,7 @@ def run(scratch, kind, writers, faults, order, dest0, dir0, dry, texts):
     shutil.rmtree(d, ignore_errors=True)
     if dir0 or dest0 == 'old':
         real_os.makedirs(d)
-    world = World(d, kind, faults, texts, order)
+    world = World(d, kind, faults, texts, order, persistent)
     if dest0 == 'old':
         with open(world.dest, 'wb') as fh:
             fh.write(OLD.encode('utf-8'))
